@@ -16,6 +16,7 @@ import (
 
 	"github.com/EliCDavis/polyform/formats/ply"
 	"github.com/EliCDavis/polyform/modeling"
+	"github.com/EliCDavis/polyform/nodes"
 )
 
 func plyHx(b []byte) string {
@@ -286,6 +287,19 @@ func plyReaderEntries(full bool) []plyEntry {
 		viaReader("bufio.Reader(16)", func(d []byte) io.Reader { return bufio.NewReaderSize(bytes.NewReader(d), 16) }),
 		viaReader("iotest.HalfReader", func(d []byte) io.Reader { return iotest.HalfReader(bytes.NewReader(d)) }),
 		{"ply.Load", func(d []byte) (*modeling.Mesh, error) { return ply.Load(plyTmpFile(d)) }},
+		// the graph node wrapper (formats/ply/types.go): ply.ReadNode fed with the bytes.  It swallows the reader's error
+		// and yields the empty point cloud instead, so: a file ReadMesh rejects must give exactly that empty mesh
+		// (reported as "err" here, like the other entries); any other file must give what ReadMesh gives.
+		{"ply.ReadNode", func(d []byte) (*modeling.Mesh, error) {
+			n := &ply.ReadNode{Data: ply.ReadNodeData{In: nodes.Value(d).Out()}}
+			m := n.Out().Value()
+			if _, derr := ply.ReadMesh(bytes.NewReader(d)); derr != nil {
+				if m.Topology() == modeling.PointTopology && m.AttributeLength() == 0 && m.PrimitiveCount() == 0 {
+					return nil, derr
+				}
+			}
+			return &m, nil
+		}},
 	}
 	if !full {
 		return es
@@ -354,10 +368,30 @@ func plyHeaderEntryResults(data []byte) string {
 	return strings.Join(parts, " | ")
 }
 
+// offset of the header's own "end_header" line (comments may contain the word), -1 if there is none
+func plyEndHeaderAt(data []byte) int {
+	off := 0
+	for off < len(data) {
+		nl := bytes.IndexByte(data[off:], '\n')
+		line := data[off:]
+		if nl >= 0 {
+			line = data[off : off+nl]
+		}
+		if string(bytes.TrimSuffix(line, []byte("\r"))) == "end_header" {
+			return off
+		}
+		if nl < 0 {
+			break
+		}
+		off += nl + 1
+	}
+	return -1
+}
+
 // strict prefixes of the header text must be rejected by ReadHeader with an error (theorem ply_header_cut_bytes):
 // a few cut positions per file — inside a line, at line boundaries, inside / right after "end_header" (before its LF)
 func (c *Ctx) plyHeaderCuts(op string, data []byte) {
-	end := bytes.Index(data, []byte("end_header"))
+	end := plyEndHeaderAt(data)
 	if end < 0 {
 		return
 	}
